@@ -174,3 +174,36 @@ def targeted_search(ctx, M, pred, disagreements, histories, n=400, hist_len=(1, 
             ctx.violation(site, cls, {"class": M.NAME, "ops": small}, detail=detail)
             found += 1
     return found
+
+
+def replay_sm(ctx, M, driver, fields, pred, path, derive=lambda s: s):
+    """re-execute the history of a replay file on the current tree: predicate + correspondence; prints the verdict"""
+    j = json.load(open(path))
+    ops = j["case"]["ops"] if "ops" in j.get("case", {}) else None
+    if ops is None:
+        print(f"replay {path}: no history in this replay (kind={j.get('kind')}); broken: {j.get('broken')}")
+        return 2
+    r = first_pred_failure(M, copy.deepcopy(ops), pred, derive)
+    if r:
+        i, cls, detail = r
+        print(f"VIOLATION property={ctx.prop} replay={path}")
+        print(f"  reproduced: after op #{i} ({ops[i]['op']}): {cls}: {detail}")
+        return 1
+    # correspondence
+    H = M.factory()
+    snaps = []
+    for op in ops:
+        out, _ = M.apply_impl(H, op)
+        snaps.append(derive(M.snapshot(H, out)))
+    resps = run_driver(driver, [{"op": "reset"}] + [M.to_request(o) for o in ops])[1:]
+    for i, (s, m) in enumerate(zip(snaps, resps)):
+        if m.get("out") in ("unmodelled", "bad-op"):
+            break
+        mm = project(derive(canon(m)), fields)
+        if mm != project(s, fields):
+            diff = [k for k in fields if mm.get(k) != s.get(k)]
+            print(f"VIOLATION property={ctx.prop} replay={path}")
+            print(f"  reproduced: model and implementation differ after op #{i} ({ops[i]['op']}) on {diff}")
+            return 1
+    print(f"replay {path}: not reproduced on the current tree (predicate holds, model and implementation agree)")
+    return 0
